@@ -3185,6 +3185,39 @@ func (r *Report) Conjunction(key, fnKey string, a, b []string) {
 			n++
 		}
 	}
+	mm := func(p Pred, x []string) bool {
+		return p.Op == "LSS" && !p.Neg && p.A.Has("phi") && p.B.Has(x...)
+	}
+	if n == 2 {
+		// the same conjunction in branch form: if !(x) { return false }; return y
+		var fb, gb *ssa.BasicBlock
+		var cmp2 *ssa.BinOp
+		for _, bl := range fn.Blocks {
+			rt := returnOf(bl)
+			if rt == nil || bl == fn.Recover || len(rt.Results) != 1 {
+				continue
+			}
+			switch x := rt.Results[0].(type) {
+			case *ssa.Const:
+				if constString(x) == "false" && len(bl.Instrs) == 1 {
+					fb = bl
+				}
+			case *ssa.BinOp:
+				gb, cmp2 = bl, x
+			}
+		}
+		if fb != nil && gb != nil && len(fb.Preds) == 1 {
+			if first := ifOf(fb.Preds[0]); first != nil && fb.Preds[0].Succs[1] == fb && fb.Preds[0].Succs[0] == gb && len(gb.Preds) == 1 {
+				p1, p2 := NormalizeCond(first.Cond), NormalizeCond(cmp2)
+				if (mm(p1, a) && mm(p2, b)) || (mm(p1, b) && mm(p2, a)) {
+					r.OK(k, d, w.Pos(cmp2.Pos()), "both strict comparisons: the first one failing returns false, otherwise the second one is returned")
+				} else {
+					r.Bad(k, d, w.posOr(cmp2.Pos(), fn), "comparisons are "+p1.String()+" and "+p2.String())
+				}
+				return
+			}
+		}
+	}
 	if n != 1 || len(ret.Results) != 1 {
 		r.Bad(k, d, w.FnPos(fn), fmt.Sprintf("%d returns", n))
 		return
